@@ -27,6 +27,7 @@ RULE = ('(a) generic: a generated ledger, then 1-6 assignments to value-level pr
         '(c) payee / narration from 0, 1 and 2 initial strings, all sequences of length <= 3 over {None, "", "x"} per field and random longer ones, '
         'against the pair reference with the payee-implies-narration rule. Non-trivial = (a) the property changed presence state, (b)/(c) a sequence of '
         '>= 2 assignments that changes the concrete form at least once.')
+RULE = RULE + " Round 8: a value after which the document no longer parses is a violation of 'survives print and re-parse' (outside the layouts of C06's open findings)."
 ASSUMPTIONS = ['which concrete syntax form a cost takes is not asserted', 'Transaction.string0/1/2 (grammar artefacts behind payee/narration) are not assigned or compared']
 SHRINK_LISTS = ('ops', 'dirs')
 REQUIRED_CLASSES = ('part:generic', 'part:cost', 'part:payee', 'cost:rejection', 'cost:form-changed', 'generic:presence-changed', 'reparsed')
